@@ -193,6 +193,14 @@ func enumerate(shard, nshards int, yield func(Case)) {
 		b, _ := json.Marshal(doc)
 		yield(Case{Files: map[string][]byte{"/w/root.json": b, "/w/aux.json": []byte(auxDoc)}, Root: "/w/root.json", Entry: []string{"data", "datawithpath", "uri"}[idx%3], AllowExt: idx%2 == 0})
 	}
+	enumerateRetype(func(doc any) {
+		idx++
+		if idx%nshards != shard {
+			return
+		}
+		b, _ := json.Marshal(doc)
+		yield(Case{Files: map[string][]byte{"/w/root.json": b, "/w/aux.json": []byte(auxDoc)}, Root: "/w/root.json", Entry: "datawithpath", AllowExt: true})
+	})
 	base := func(comps M, paths M) M {
 		return M{"openapi": "3.0.3", "info": M{"title": "t", "version": "1"}, "paths": paths, "components": comps}
 	}
@@ -249,6 +257,30 @@ func enumerate(shard, nshards int, yield func(Case)) {
 						break
 					}
 				}
+			}
+		}
+	}
+}
+
+// enumerateRetype: every position of the all-kinds base document (and of the first corpus
+// documents) holds, in turn, null, a boolean, a number, a string, an empty array, an empty object
+// and an array wrapping the original: the long tail of "entry of the wrong JSON type" inputs.
+func enumerateRetype(emit func(doc any)) {
+	seeds := []any{jv.Parse(docgen.BaseDoc)}
+	for i, v := range corpus {
+		if i < 6 {
+			seeds = append(seeds, v)
+		}
+	}
+	for _, seed := range seeds {
+		var locs []loc
+		collect(seed, nil, &locs, 3000)
+		for _, l := range locs {
+			if len(l.ptr) == 0 {
+				continue
+			}
+			for _, nv := range []any{nil, true, 1.0, "s", []any{}, map[string]any{}, []any{l.node}} {
+				emit(setAt(seed, l.ptr, nv))
 			}
 		}
 	}
